@@ -44,11 +44,14 @@ type PathCase struct {
 	Names   int      `json:"names"`   // renaming table (plain / unicode+space+percent)
 	Entry   string   `json:"entry"`   // builder | selector (UnixFSPathSelector convenience)
 	Passive bool     `json:"passive"` // visitor does not touch matched nodes (C05/C20 load accounting)
+	Consume bool     `json:"consume"` // visitor is BytesConsumingMatcher (C06 entity access)
+	MissK   int      `json:"missk"`   // make the k-th block of the target entity unavailable (0 = none)
 }
 
 var renames = []map[string]string{
 	{"a": "a", "b": "b", ".": ".", "..": "..", "x": "absent"},
 	{"a": "ü n%41 é", "b": "sp ace%2F", ".": ".", "..": "..", "x": "nö such"},
+	{"a": "2024", "b": "7", ".": ".", "..": "..", "x": "99"}, // names that look like list indices
 }
 
 type builtNode struct {
@@ -224,7 +227,7 @@ func runPathCase(pc *PathCase, tr *Tr) error {
 	sel, err := selector.CompileSelector(selNode)
 	if err != nil {
 		tr.Emit(M{"ev": "walk", "e": "compile", "tree": pc.Tree, "segs": pc.Segs, "target": pc.Target, "mp": pc.MP, "matches": []M{},
-			"loads": []int{}, "failed": []int{}, "blocks": []M{}, "passive": pc.Passive})
+			"loads": []int{}, "failed": []int{}, "blocks": []M{}, "passive": pc.Passive, "consume": pc.Consume, "missing": []int{}})
 		return nil
 	}
 	ls := st.LinkSystem()
@@ -234,6 +237,16 @@ func runPathCase(pc *PathCase, tr *Tr) error {
 		return err
 	}
 	st.logLoads = true
+	missing := []int{}
+	if pc.MissK > 0 {
+		if bs := blocksOf[strings.Join(pc.Segs, "/")]; pc.MissK <= len(bs) {
+			c := cls.cids[bs[pc.MissK-1]-1]
+			if !c.Equals(root.c) {
+				st.missing[key(c)] = true
+				missing = append(missing, bs[pc.MissK-1])
+			}
+		}
+	}
 	matches := []M{}
 	prog := traversal.Progress{Cfg: &traversal.Config{
 		Ctx:                            context.Background(),
@@ -255,6 +268,10 @@ func runPathCase(pc *PathCase, tr *Tr) error {
 				mpath = []string{}
 			}
 			m := M{"path": mpath, "kind": n.Kind().String(), "bytesOK": false, "names": []string{}}
+			if pc.Consume {
+				matches = append(matches, m)
+				return unixfsnode.BytesConsumingMatcher(p, n)
+			}
 			if !pc.Passive {
 				k := strings.Join(mpath, "/")
 				switch n.Kind() {
@@ -292,7 +309,7 @@ func runPathCase(pc *PathCase, tr *Tr) error {
 	}
 	loads, failed := st.TakeLoads()
 	tr.Emit(M{"ev": "walk", "e": errClass(werr), "tree": pc.Tree, "segs": pc.Segs, "target": pc.Target, "mp": pc.MP, "matches": matches,
-		"loads": classes(cls, loads), "failed": classes(cls, failed), "blocks": blockTable, "passive": pc.Passive, "pathstr": ps})
+		"loads": classes(cls, loads), "failed": classes(cls, failed), "blocks": blockTable, "passive": pc.Passive || pc.Consume, "consume": pc.Consume, "missing": missing, "pathstr": ps})
 	return nil
 }
 
@@ -308,6 +325,7 @@ func init() {
 		fs := flag.NewFlagSet("path-replay", flag.ExitOnError)
 		cases := fs.String("cases", "", "TLC-exported cases")
 		passive := fs.Bool("passive", false, "passive visitor (load accounting)")
+		consume := fs.Bool("consume", false, "visitor is BytesConsumingMatcher; also one run per unavailable block of the target")
 		out := fs.String("out", "", "trace output")
 		fs.Parse(args)
 		tr, err := NewTr(*out)
@@ -330,12 +348,28 @@ func init() {
 				c.Segs = []string{}
 			}
 			pc := &PathCase{Fam: "path", ID: fmt.Sprintf("path-%d", i), Tree: c.Tree, Segs: c.Segs, Target: c.Target, MP: c.MP,
-				Pres: i % 5, Names: (i / 5) % 2, Entry: "builder", Passive: *passive}
+				Pres: i % 5, Names: (i / 5) % 3, Entry: "builder", Passive: *passive}
 			if c.Target == "match" && !c.MP && i%3 == 0 {
 				pc.Entry = "selector"
 			}
 			i++
-			return runPathCase(pc, tr)
+			if !*consume {
+				return runPathCase(pc, tr)
+			}
+			pc.Consume = true
+			if err := runPathCase(pc, tr); err != nil {
+				return err
+			}
+			// every single block of the target entity unavailable (at most 8 per case)
+			for k := 1; k <= 8; k++ {
+				c := *pc
+				c.MissK = k
+				c.ID = fmt.Sprintf("%s-miss%d", pc.ID, k)
+				if err := runPathCase(&c, tr); err != nil {
+					return err
+				}
+			}
+			return nil
 		})
 	}
 }
